@@ -504,6 +504,21 @@ impl ProtocolSet {
         self.connection.verif_alive_probe()
     }
 
+    /// [`ProtocolSet::new`] with a command channel of the given capacity (256 in production).
+    pub fn verif_new_with_capacity(
+        connection_id: ConnectionId,
+        mgr_tx: Sender<TransportManagerEvent>,
+        next_substream_id: Arc<AtomicUsize>,
+        protocols: HashMap<ProtocolName, ProtocolContext>,
+        capacity: usize,
+    ) -> Self {
+        let mut set = Self::new(connection_id, mgr_tx, next_substream_id, protocols);
+        let (tx, rx) = channel(capacity);
+        set.rx = rx;
+        set.connection = ConnectionHandle::new(connection_id, tx);
+        set
+    }
+
     pub async fn verif_report_connection_established(
         &mut self,
         peer: PeerId,
